@@ -406,10 +406,10 @@ func (r *runner) enumerate(nScn, nDouble, shardK, shardN int) {
 	kinds := []string{"plain", "tx", "tx2", "idupd"}
 	for x := 0; x < nScn; x++ {
 		var d scDesc
-		d.Long = rnd.Intn(2) == 0
+		d.Long = (x/5)%2 == 0
 		d.H0 = 4 + rnd.Intn(3)
 		d.Pad = rnd.Intn(3)
-		switch (x + rnd.Intn(2)) % 5 {
+		switch x % 5 { // every family in every run; long and short chains alternate per round
 		case 4:
 			d.Op = "FastSync"
 			for i, m := 0, 2+rnd.Intn(3); i < m; i++ {
